@@ -142,3 +142,11 @@ Arguments allowed {loc val} owner i a.
 Arguments disciplined {loc val res} loc_eqb owner i p s.
 Arguments all_disciplined {loc val res} loc_eqb owner ps s.
 Arguments write_free {loc val res} loc_eqb p s.
+
+(* the same thread with its result renamed *)
+Fixpoint prog_map {loc val res res' : Type} (f : res -> res') (p : prog loc val res) : prog loc val res' :=
+  match p with
+  | Done r => Done (f r)
+  | Read l k => Read l (fun v => prog_map f (k v))
+  | Write l v k => Write l v (prog_map f k)
+  end.
